@@ -452,6 +452,123 @@ def slow_hook_probe(n_failures, record_at, stage="start"):
     return simnet.run(go)
 
 
+class LiveAioZc:
+    """AsyncZeroconf stand-in for the integration probes: a closed engine delivers nothing any more."""
+    instances = []
+
+    def __init__(self, zc=None, **kw):
+        self.log = []
+        self.zeroconf = FakeZc(self.log)
+        self.closed = 0
+        LiveAioZc.instances.append(self)
+
+    async def async_close(self):
+        self.closed += 1
+        del self.zeroconf.listeners[:]
+
+
+def integration_probe(scenario):
+    """The real APIClient driven by the real ReconnectLogic over SimNet.
+    'drop': an established session is reset; the application's on_disconnect callback returns without ever suspending - the next
+            attempt must start at once (and must not be refused);
+    'record': the device is addressed by name, nothing resolves; after two failed attempts a matching mDNS record arrives - the
+            engine the manager listens on must still be alive and the record must trigger an attempt at once."""
+    from unittest.mock import patch
+
+    def go(loop):
+        async def inner():
+            import zeroconf
+            from zeroconf import DNSPointer
+            from zeroconf.const import _TYPE_PTR, _CLASS_IN
+            from aioesphomeapi import api_pb2 as pb
+            from aioesphomeapi import host_resolver as hr
+            from aioesphomeapi.client import APIClient
+            from aioesphomeapi.reconnect_logic import ReconnectLogic
+            from checks.c20 import FakeInfo
+            net = simnet.Net(loop)
+            events = []
+            LiveAioZc.instances = []
+
+            async def on_connect():
+                events.append("connect")
+
+            async def on_disconnect(expected):
+                events.append(f"disconnect({bool(expected)})")
+
+            async def on_connect_error(err):
+                events.append("error:" + type(err).__name__ + (":already" if "Already connected" in str(err) else ""))
+
+            async def no_getaddrinfo(*a, **k):
+                raise OSError("getaddrinfo failure")
+            FakeInfo.table = {}
+            FakeInfo.calls = []
+            t0 = loop.time()
+            with net.patched(resolver=(scenario == "drop")), patch("aioesphomeapi.zeroconf.AsyncZeroconf", LiveAioZc), \
+                    patch.object(hr, "AsyncServiceInfo", FakeInfo), patch.object(loop, "getaddrinfo", no_getaddrinfo):
+                cli = APIClient("dev.local" if scenario == "record" else "10.0.0.1", 6053, None)
+                rl = ReconnectLogic(client=cli, on_connect=on_connect, on_disconnect=on_disconnect, on_connect_error=on_connect_error, name="dev")
+                await rl.start()
+                await simnet.drain(loop)
+                out = {}
+                if scenario == "drop":
+                    tr = net.transports[-1]
+                    tr.feed(simnet.plain_msg(pb.HelloResponse(api_version_major=1, api_version_minor=10, name="dev")))
+                    tr.feed(simnet.plain_msg(pb.ConnectResponse(invalid_password=False)))
+                    await simnet.drain(loop)
+                    n_tr = len(net.transports)
+                    tr.lose(ConnectionResetError("reset"))
+                    await simnet.drain(loop)
+                    out = {"events": list(events), "new_attempts_at_once": len(net.transports) - n_tr, "elapsed": round((loop.time() - t0) * U)}
+                else:
+                    # let two attempts fail (resolution finds nothing), following the back-off timers
+                    for _ in range(12):
+                        if sum(1 for e in events if e.startswith("error")) >= 2:
+                            break
+                        nt = loop.next_timer()
+                        if nt is None:
+                            break
+                        await simnet.advance(loop, to=nt + simnet.CLOCK_BASE)
+                    n_err = sum(1 for e in events if e.startswith("error"))
+                    n_lookups = len(FakeInfo.calls)
+                    live = [z for z in LiveAioZc.instances if z.zeroconf.listeners]
+                    closed_while_listening = [z.closed for z in LiveAioZc.instances if "L1" in z.log and "L0" not in z.log and z.closed]
+                    rec = DNSPointer("_esphomelib._tcp.local.", _TYPE_PTR, _CLASS_IN, 1000, "dev._esphomelib._tcp.local.")
+                    for z in live:
+                        for listener in list(z.zeroconf.listeners):
+                            listener.async_update_records(None, 0.0, [zeroconf.RecordUpdate(rec, None)])
+                    await simnet.drain(loop)
+                    out = {"events": list(events), "failed_attempts": n_err, "engines_with_listener": len(live),
+                           "closed_while_listening": len(closed_while_listening), "lookups_after_record": len(FakeInfo.calls) - n_lookups}
+                await rl.stop()
+                await simnet.drain(loop)
+                for t in asyncio.all_tasks(loop):
+                    if t is not asyncio.current_task():
+                        t.cancel()
+            return out
+        return inner()
+    return simnet.run(go)
+
+
+def run_integration_probes(rep):
+    out = integration_probe("drop")
+    replay = {"kind": "integration-probe", "scenario": "drop"}
+    rep.case(("integration", "drop"), True, sample={"probe": replay, "result": out})
+    rep.bump("probe:integration")
+    if any(e.startswith("error") for e in out["events"]) or out["new_attempts_at_once"] != 1:
+        rep.violation("C18/no-immediate-retry", "real APIClient + ReconnectLogic, established session reset by the peer, on_disconnect returns without suspending: "
+                      f"{out['new_attempts_at_once']} new attempt(s) started at once, callbacks {out['events']} (an unexpected disconnect is retried immediately)", replay)
+    out = integration_probe("record")
+    replay = {"kind": "integration-probe", "scenario": "record"}
+    rep.case(("integration", "record"), True, sample={"probe": replay, "result": out})
+    rep.bump("probe:integration")
+    if out["failed_attempts"] < 2:
+        rep.violation("C18/no-retry", f"device addressed by name, nothing resolves: only {out['failed_attempts']} failed attempt(s) within the back-off schedule ({out['events']})", replay)
+    elif out["closed_while_listening"] or out["engines_with_listener"] != 1 or out["lookups_after_record"] < 1:
+        rep.violation("C18/record-ignored", "device addressed by name, two attempts failed, then a matching mDNS record arrives: "
+                      f"engines still carrying the manager's listener: {out['engines_with_listener']}, closed while listening: {out['closed_while_listening']}, "
+                      f"lookups started by the record: {out['lookups_after_record']} (the record must trigger an attempt at once)", replay)
+
+
 def run_slow_hook_probes(rep):
     for stage in ("start", "finish"):
         for n, at in ((4, 0), (4, 1), (4, 2), (4, 3), (5, 4)):
@@ -472,6 +589,7 @@ def run_slow_hook_probes(rep):
 def run(rep, tier, seed):
     rng = random.Random(seed)
     run_slow_hook_probes(rep)
+    run_integration_probes(rep)
     rep.coverage["rule"] = (
         "adaptive random histories (length 10-60) over {start, stop, attempt outcomes ok / auth error / other error incl. long-hanging calls, expected / unexpected session "
         "ends, matching PTR/A and non-matching mDNS records, timer expiry, time advancing between timers} on the real ReconnectLogic with a stub client and fake zeroconf under "
